@@ -68,6 +68,8 @@ SApply(P, f, arg, fuel) ==
 SEvalList(P, es, rho, fuel) ==
   IF es = <<>> THEN Ok(<<>>) ELSE
   LET h == SEval(P, es[1], rho, fuel) IN
+  \* (the outcome <<"unk">> only arises in the static analysis below: an unknown element does not hide a later certain failure)
+  IF h[1] = "unk" THEN (LET t == SEvalList(P, Tail(es), rho, fuel) IN IF t[1] = "err" THEN t ELSE h) ELSE
   IF h[1] # "ok" THEN h ELSE
   LET t == SEvalList(P, Tail(es), rho, fuel) IN
   IF t[1] # "ok" THEN t ELSE Ok(<<h[2]>> \o t[2])
@@ -154,7 +156,44 @@ Closed(e) ==
     [] e[1] = "if" -> Closed(e[2]) /\ Closed(e[3]) /\ Closed(e[4])
     [] OTHER -> FALSE
 AllBodies(P) == {P.body} \cup {P.helpers[i][4] : i \in {j \in 1..Len(P.helpers) : P.helpers[j][1] \in {"defun", "defmacro"}}}
-StaticFail(P) == \E b \in AllBodies(P) : \E e \in SubExprs(b) : e[1] # "lit" /\ Closed(e) /\ SEval(P, e, EmptyEnv, 20)[1] = "err"
+\* ... and subexpressions that fail for every input once the literals bound by enclosing let / assign forms (and passed
+\* to functions) are propagated: every occurrence of a subexpression is evaluated in its static environment, in which
+\* parameters have the outcome <<"unk">> (unknown) and let-bound names the outcome of their binding
+Unk == <<"unk">>
+RECURSIVE PatNames(_)
+PatNames(p) == CASE p[1] = "pn" -> {} [] p[1] = "pv" -> {p[2]} [] p[1] = "pat" -> {p[2]} \cup PatNames(p[3]) [] p[1] = "pc" -> PatNames(p[2]) \cup PatNames(p[3])
+UnkEnv(names) == [n \in names |-> Unk]
+\* bind a pattern to an outcome: unknown or failed outcomes make every name of the pattern unknown
+SBindU(pat, o, rho) == IF o[1] = "ok" /\ ~HasClo(o[2]) THEN Bind(pat, o, EmptyEnv) @@ rho ELSE UnkEnv(PatNames(pat)) @@ rho
+Fails(P, e, rho) == e[1] \notin {"lit", "var"} /\ SEval(P, e, rho, 20)[1] = "err"
+RECURSIVE Scan(_, _, _), ScanSeq(_, _, _, _), ScanAssign(_, _, _, _)
+ScanSeq(P, bs, body, rho) ==
+  IF bs = <<>> THEN Scan(P, body, rho)
+  ELSE Scan(P, bs[1][2], rho) \/ ScanSeq(P, Tail(bs), body, (bs[1][1] :> SEval(P, bs[1][2], rho, 20)) @@ rho)
+ScanAssign(P, bs, body, rho) ==
+  IF bs = <<>> THEN Scan(P, body, rho)
+  ELSE Scan(P, bs[1][2], rho) \/ ScanAssign(P, Tail(bs), body, SBindU(bs[1][1], SEval(P, bs[1][2], rho, 20), rho))
+Scan(P, e, rho) ==
+  \/ Fails(P, e, rho)
+  \/ CASE e[1] = "prim" -> \E i \in 1..Len(e[3]) : Scan(P, e[3][i], rho)
+        [] e[1] = "list" -> \E i \in 1..Len(e[2]) : Scan(P, e[2][i], rho)
+        [] e[1] = "call" -> (\E i \in 1..Len(e[3]) : Scan(P, e[3][i], rho)) \/ (e[4][1] # "none" /\ Scan(P, e[4], rho))
+        [] e[1] = "if" -> Scan(P, e[2], rho) \/ Scan(P, e[3], rho) \/ Scan(P, e[4], rho)
+        [] e[1] = "let" -> IF e[2] = "seq" THEN ScanSeq(P, e[3], e[4], rho)
+                           ELSE (\E i \in 1..Len(e[3]) : Scan(P, e[3][i][2], rho))
+                                \/ Scan(P, e[4], [n \in {e[3][i][1] : i \in 1..Len(e[3])} |->
+                                        SEval(P, e[3][CHOOSE i \in 1..Len(e[3]) : e[3][i][1] = n][2], rho, 20)] @@ rho)
+        [] e[1] = "assign" -> ScanAssign(P, e[2], e[3], rho)
+        [] e[1] = "lambda" -> Scan(P, e[4], UnkEnv(PatNames(e[3])) @@ rho)
+        [] e[1] = "apply" -> Scan(P, e[2], rho) \/ Scan(P, e[3], rho)
+        [] OTHER -> FALSE
+StaticFail(P) ==
+  \/ \E b \in AllBodies(P) : \E e \in SubExprs(b) : e[1] # "lit" /\ Closed(e) /\ SEval(P, e, EmptyEnv, 20)[1] = "err"
+  \/ Scan(P, P.body, UnkEnv(PatNames(P.args)))
+  \/ \E i \in 1..Len(P.helpers) :
+        \/ P.helpers[i][1] = "defun" /\ Scan(P, P.helpers[i][4], UnkEnv(PatNames(P.helpers[i][3])))
+        \/ P.helpers[i][1] = "defmacro" /\ Scan(P, P.helpers[i][4], UnkEnv({P.helpers[i][3][k] : k \in 1..Len(P.helpers[i][3])}))
+        \/ P.helpers[i][1] = "defconst" /\ Scan(P, P.helpers[i][3], EmptyEnv)
 
 RunProgram(P, args, fuel) ==
   LET b == BindS(P.args, Ok(args), EmptyEnv)
